@@ -90,12 +90,12 @@ def solve(equations, invocation, verbose=False):
             failed_axes = sorted({str(x) for x in failed_axes})
             raise solver.SolveExceptionTooManySolutions(", ".join(failed_axes))
 
-        # Raise exception on non-positive values
+        # Raise exception on values that are non-positive or smaller than the minimum length of the axis
         failed_exprs = set()
         for root in exprs1 + exprs2:
             if root is not None:
                 for expr in root.nodes():
-                    if isinstance(expr, stage2.Axis) and axis_values[id(expr)] <= 0:
+                    if isinstance(expr, stage2.Axis) and axis_values[id(expr)] < expr.min_value:
                         failed_exprs.add(expr)
         if len(failed_exprs) > 0:
             raise solver.SolveExceptionNoSolution()
